@@ -310,7 +310,14 @@ class DAGRunConcurrentManager(DAGRunManagerLike):
 
             await self._lock_manager.wait_for_event(node_id)
 
-            return self._node_storage.get_node_result(node_id)
+            result = self._node_storage.get_node_result(node_id)
+
+            if isinstance(result, Exception) and not dag.is_oneof:
+                # The node has been executed by a OneOf branch, where an error is stored as a result.
+                # Outside of the OneOf branch the same error has to fail the execution as usual.
+                raise result
+
+            return result
 
         self._node_storage.set_node_as_processed(node_id)
         await self.ctx.emit_on_node_start(node_id=node_id)
@@ -453,6 +460,8 @@ class DAGRunConcurrentManager(DAGRunManagerLike):
                 # The node cannot be executed if there is a "Recurrent" result in the node's dependencies.
                 # Hence, the node should wait for proper a result or an error.
                 or isinstance(self._node_storage.get_node_result(pred_node_id), Recurrent)
+                # An error stored as a result by a OneOf branch is not a value for nodes outside of the OneOf branches.
+                or (not dag.is_oneof and self._node_storage.exists_node_error(pred_node_id))
             ):
                 logger.debug(
                     'The node %s cannot be executed due to absense the dependent result of the node %s',
